@@ -12,6 +12,8 @@ Section mapartials — for sum / prod / any / all / min / max / count / mean / v
             * every combine task vs the Lean combine on the REAL inputs of that task,
             * the aggregate vs the Lean tree (dask's depth, the real `nomask` flags) per kept cell,
           and the API result vs numpy.ma (payload where unmasked, mask exactly).
+Section maavg — da.ma.average(a, weights=w): numerator / denominator trees of the model (ma_average_eq) vs dask, numpy.ma and the
+          plain sums over the unmasked positions.
 Section maarr — getmaskarray / getdata / filled per block of `from_array` (dask.get on the block keys) vs the model's per-block
           lists, `nomask` expansion included; whole result vs the model and numpy.ma.
 """
@@ -474,10 +476,19 @@ def case_maarr(ctx, inp):
     mask_arg = Sym("nomask") if inp["mask"] is None else [sym_b(bool(m)) for m in inp["mask"]]
     m_blocks, m_whole = ctx.lean(Sym("maarr"), Sym(fn), int(v), list(chunks[0]), [int(d) for d in data], mask_arg)
     conv = (lambda t: [e is True for e in t]) if fn == "getmaskarray" else (lambda t: [int(e) for e in t])
-    ctx.eq(f"{fn}: per-block outputs of the real graph vs the model's blocks", [conv(b) for b in m_blocks],
-           [[bool(e) if fn == "getmaskarray" else int(e) for e in np.asarray(per_block[kk])] for kk in keys])
-    whole = U.sync_compute(r)
-    ctx.eq(f"{fn}: whole result vs the model", conv(m_whole), [bool(e) if fn == "getmaskarray" else int(e) for e in np.asarray(whole)])
+
+    def lst(val):
+        arr = np.asarray(val)
+        if arr.ndim != 1:
+            return ["not a 1-d block", list(arr.shape)]
+        return [bool(e) if fn == "getmaskarray" else int(e) for e in arr]
+    ctx.eq(f"{fn}: per-block outputs of the real graph vs the model's blocks", [conv(b) for b in m_blocks], [lst(per_block[kk]) for kk in keys])
+    try:
+        whole = U.sync_compute(r)
+    except Exception as e:      # noqa: BLE001
+        ctx.fail(f"da.ma.{fn} raised {type(e).__name__} where numpy.ma returns a value", observed=str(e)[:200], expected=np.asarray(ref).tolist())
+        return
+    ctx.eq(f"{fn}: whole result vs the model", conv(m_whole), lst(whole))
     if isinstance(whole, np.ma.MaskedArray) or not np.array_equal(np.asarray(whole), np.asarray(ref)):
         ctx.fail(f"da.ma.{fn} differs from numpy.ma (or is still a masked array)", observed=np.asarray(whole).tolist(), expected=np.asarray(ref).tolist())
     # the blocks of from_array keep the array's own nomask status (the model's `MArr.blocks`)
@@ -492,7 +503,96 @@ def case_maarr(ctx, inp):
     ctx.branch(fn)
 
 
-CASES = {"mapartials": case_mapartials, "maarr": case_maarr}
+def case_maavg(ctx, inp):
+    """da.ma.average(a, weights=w) on a 1-d integer masked array: numerator / denominator trees of the model (theorem
+    ma_average_eq) vs dask vs numpy.ma"""
+    da = _da()
+    data = np.array(inp["data"], dtype="int64")
+    w = np.array(inp["weights"], dtype="int64")
+    chunks = (tuple(inp["chunks"]),)
+    a = np.ma.masked_array(data) if inp["mask"] is None else np.ma.masked_array(data, mask=np.array(inp["mask"], dtype=bool))
+    x = da.from_array(a, chunks=chunks)
+    wx = da.from_array(w, chunks=chunks)
+    with warnings.catch_warnings():
+        warnings.simplefilter("ignore")
+        try:
+            exp = ("ok", np.ma.average(a, weights=w))
+        except Exception as e:      # noqa: BLE001
+            exp = ("raised", type(e).__name__)
+        try:
+            res = da.ma.average(x, weights=wx, axis=0)
+            got = ("ok", U.sync_compute(res))
+        except Exception as e:      # noqa: BLE001
+            got = ("raised", f"{type(e).__name__}: {e}"[:200])
+    if exp[0] == "raised" or got[0] == "raised":
+        if exp[0] != got[0]:
+            ctx.fail(f"ma.average(weights): dask {got[0]} / numpy.ma {exp[0]}", observed=str(got[1]), expected=str(exp[1]))
+        ctx.branch("raises")
+        return
+    bounds = U.block_bounds(chunks[0])
+    mk = np.ma.getmaskarray(a)
+    blocks = [enc_elems(data[s:e], mk[s:e]) for s, e in bounds]
+    wss = [[int(v) for v in w[s:e]] for s, e in bounds]
+    k = 4                                   # the default split_every of array reductions
+    nb = len(bounds)
+    import math
+    depth = max(1, int(math.ceil(math.log(nb, k)))) if nb > 1 else 1
+    num, den, flags = ctx.lean(Sym("maavg"), k, depth, wss, blocks)
+    # the blocks of multiply(a, wgt, dtype=…) in the real graph: `mask is nomask` per block (the model's `shrunk` rule)
+    mul = [n for n in res.dask.layers if n.startswith("multiply-")]
+    if len(mul) == 1:
+        pb = graph_values(res, mul[0], [(i,) for i in range(nb)])
+        ctx.eq("average: `mask is nomask` of the blocks of multiply(a, wgt, dtype) vs the model's shrunk rule",
+               [f is True for f in flags], [is_nomask(pb[(i,)]) for i in range(nb)])
+        ctx.branch("multiply blocks inspected")
+    if len(num) != 1 or len(den) != 1:
+        ctx.disagree("ma.average: the Lean trees do not end in one block", [num, den], None)
+        return
+    (nd, nmk), dn = plain(num[0]), int(den[0])
+    # oracle in plain Python over the unmasked positions
+    o_num = sum(int(d) * int(ww) for d, ww, m in zip(data, w, mk) if not m)
+    o_den = sum(int(ww) for ww, m in zip(w, mk) if not m)
+    if (not nmk and nd != o_num) or dn != o_den:
+        ctx.disagree("ma.average: Lean numerator / denominator vs the sums over the unmasked positions", [nd, dn], [o_num, o_den])
+    gm, gv = _cell_value(got[1], ())
+    em, ev = _cell_value(exp[1], ())
+    # the quotient: masked iff the numerator is; a zero total weight of the unmasked positions is a division by zero
+    # (numpy.ma and dask both return nan or masked with a warning — an undefined value, not modelled)
+    if nmk:
+        if not gm:
+            ctx.disagree("ma.average(weights): Lean numerator masked vs dask", "masked", float(gv))
+    elif dn == 0:
+        if not (gm or not np.isfinite(float(gv))):
+            ctx.disagree("ma.average(weights): total weight 0 vs dask", "x/0", float(gv))
+    elif gm or not _close(nd / dn, float(gv), abs(nd) + 1.0):
+        ctx.disagree("ma.average(weights): Lean num / den vs dask", nd / dn, "masked" if gm else float(gv))
+    both_nan = (not gm) and (not em) and np.isnan(float(gv)) and np.isnan(float(ev))
+    allm = bool(mk.all()) and mk.size >= 1
+    finding_class = allm and (0 in chunks[0])
+    if gm != em or (not gm and not both_nan and not _close(float(gv), float(ev), abs(nd) + 1.0)):
+        what = "ma.average(weights) differs from numpy.ma"
+        obs = {"dask": "masked" if gm else float(gv), "numpy.ma": "masked" if em else float(ev)}
+        if finding_class and em and not gm:
+            ctx.branch("finding: zero-length block shrunk to nomask in an all-masked array")
+            ctx.fail(what + " — the zero-length block of multiply(a, wgt, dtype=…) comes back with `nomask`; its partial is the "
+                     "UNMASKED 0, so the numerator of a completely masked array is not masked", sig=FINDING_SIG, observed=obs)
+        else:
+            ctx.fail(what, observed=obs)
+    elif finding_class:
+        ctx.fail("the recorded finding (zero-length block shrunk to nomask in an all-masked array) did not reproduce for "
+                 "ma.average: retire it from known_findings.json", observed={"dask": "masked" if gm else float(gv)})
+    if dn == 0 and not nmk:
+        ctx.branch("weights of the unmasked positions sum to zero")
+    if nmk:
+        ctx.branch("everything masked")
+    if inp["mask"] is None:
+        ctx.branch("nomask array")
+    if 0 in chunks[0]:
+        ctx.branch("zero-length chunk")
+    ctx.branch("average with weights")
+
+
+CASES = {"mapartials": case_mapartials, "maarr": case_maarr, "maavg": case_maavg}
 
 
 def _gen_mask(rng, shape, chunks, ax):
@@ -545,6 +645,19 @@ def gen_maarr(ctx, n):
                         "fn": rng.choice(["getmaskarray", "getmaskarray", "getdata", "filled"]), "v": rng.choice([0, -7, 42])}
 
 
+def gen_maavg(ctx, n):
+    rng = ctx.rng
+    for _ in range(n):
+        size = rng.randint(1, 9)
+        chunks = U.rand_chunks_1d(rng, size, zero_p=0.2)
+        p = rng.choice([0.0, 0.3, 0.7, 1.0])
+        mask = None if rng.random() < 0.2 else [rng.random() < p for _ in range(size)]
+        hi = rng.choice([0, 1, 3])
+        yield "maavg", {"data": [rng.randint(-4, 4) for _ in range(size)], "mask": mask, "chunks": list(chunks),
+                        "weights": [rng.randint(0, hi) for _ in range(size)]}
+
+
 def generate(ctx):
     yield from gen_mapartials(ctx, ctx.n(170, 1800))
     yield from gen_maarr(ctx, ctx.n(60, 600))
+    yield from gen_maavg(ctx, ctx.n(50, 500))
